@@ -73,7 +73,7 @@ static void drive(const CxxFn &f, bool thorough) {
 }
 // ---- hand-written wrappers: objects and their field-by-field conversion
 template <typename V, typename P> static bool veq(const V &v, const P *p, int n) { if ((int)v.size() != n) return false; for (int i = 0; i < n; i++) if (std::memcmp(&v[i], &p[i], sizeof(p[i]))) return false; return true; }
-static void wit_s(char *w, size_t n, const char *s) { snprintf(w, n, "{\"s\":\"%s\"}", esc(s).c_str()); }
+static void wit_s(char *w, size_t n, const char *s) { std::string t = esc(std::string(s ? s : "").substr(0, 40).c_str()); snprintf(w, n, "{\"s\":\"%s\",\"len\":%zu}", t.c_str(), s ? strlen(s) : (size_t)0); }     // a long name is cut before escaping: the witness stays well-formed
 static void drive_objects() {
   static const char *FORM[] = {"", "H", "H2O", "Ca5(PO4)3OH", "(((H)))", "H2O)", "(H2O", "()", "H0", "2O", "Rf", "Xx", "CuI2ww", "Fe2O3", "Fe 2", "U0.5Pu0.5O2", "Water, Liquid", "Si", "55Fe", "241Am", "Diamond", "nope"};
   char w[300];
